@@ -462,6 +462,39 @@ fn roundtrip_element(ctx: &Ctx, label: &str, path: &[Step], v: AutosarVersion, v
     });
 }
 
+/// route C: set the value as an attribute, serialize the file, load it again, compare the attribute value
+/// (inside an attribute value the quote character matters, which it does not in element text)
+fn roundtrip_attribute_file(ctx: &Ctx, label: &str, path: &[Step], attr: AttributeName, v: AutosarVersion, values: &[CharacterData], done: &AtomicU64) {
+    values.par_chunks(256).for_each(|chunk| {
+        let Ok((_m, f, leaf)) = build_chain(path, v) else {
+            ctx.machinery_error(format!("cannot build chain for {label}"));
+            return;
+        };
+        for val in chunk {
+            done.fetch_add(1, Ordering::Relaxed);
+            let r = guarded(|| -> Result<Option<CharacterData>, String> {
+                leaf.set_attribute(attr, val.clone()).map_err(|e| format!("set: {e}"))?;
+                let text = f.serialize().map_err(|e| format!("serialize: {e}"))?;
+                let m2 = AutosarModel::new();
+                m2.load_buffer(text.as_bytes(), "y.arxml", true).map_err(|e| format!("load: {e}"))?;
+                let last = m2.elements_dfs().filter(|(_, e)| e.element_name() == leaf.element_name()).last().map(|(_, e)| e).ok_or("empty")?;
+                Ok(last.attribute_value(attr))
+            });
+            let class = match &r {
+                Err(_) => Some("panic".to_string()),
+                Ok(Err(e)) if e.starts_with("set") => None, // a value the attribute does not take is not part of this route
+                Ok(Err(e)) => Some(format!("fails:{}", e.split(':').next().unwrap_or(""))),
+                Ok(Ok(None)) => Some("value-lost".to_string()),
+                // outer whitespace of an attribute value of a non-preserving kind is insignificant (DESIGN section 8)
+                Ok(Ok(Some(back))) => (back.to_string().trim_matches(|c: char| c.is_ascii_whitespace()) != val.to_string().trim_matches(|c: char| c.is_ascii_whitespace())).then(|| "value-differs".to_string()),
+            };
+            if let Some(class) = class {
+                ctx.violation(format!("roundtrip-file|{label}|{class}|{}", value_class(val)), json!({"kind": "roundtrip-file", "slot": label, "value": format!("{val:?}"), "result": format!("{r:?}")}));
+            }
+        }
+    });
+}
+
 /// route A: format with Display, parse through set_attribute_string, read the attribute back
 fn roundtrip_attribute(ctx: &Ctx, label: &str, path: &[Step], attr: AttributeName, v: AutosarVersion, values: &[CharacterData], done: &AtomicU64) {
     values.par_chunks(1024).for_each(|chunk| {
@@ -676,6 +709,9 @@ pub fn run(tier: Tier) -> i32 {
     if let Some((p, a)) = &slots.attr_string {
         roundtrip_attribute(&ctx, "attribute-string", p, *a, v_latest, &strings_api, &done);
         routes.insert("attribute-string", a.to_str());
+        // the file route for attribute values: not-empty strings without NUL (an empty attribute value is written and read as such)
+        let strings_attr_file: Vec<CharacterData> = strings_api.iter().filter(|s| !matches!(s, CharacterData::String(t) if t.contains('\u{0}') || t.trim_matches(|c: char| c.is_ascii_whitespace()).is_empty())).cloned().collect();
+        roundtrip_attribute_file(&ctx, "attribute-string-through-file", p, *a, v_latest, &strings_attr_file, &done);
     }
     for needed in ["element-float", "element-uint", "element-string-preserving", "attribute-string"] {
         if !routes.contains_key(needed) {
